@@ -29,6 +29,8 @@ enum Case {
     AnyViewAnywhere { descs: Vec<Desc> },
     /// The public rank / select support structures built for one bitvector and queried with another parent.
     ForeignSupport { own: BitsDesc, other: BitsDesc },
+    /// A library-written structure of many megabytes is loaded again and touched at both ends.
+    LargeLoad(String, usize),
 }
 
 /// Runs a call whose answer is not specified: only an out-of-bounds outcome counts.
@@ -155,6 +157,56 @@ fn foreign_support(ctx: &mut Ctx, own: &BitsDesc, other: &BitsDesc) {
             let _ = safe!(ctx, format!("SelectSupport<Identity>.select[{}]", which), case, ss.select(parent, i));
             let _ = safe!(ctx, format!("SelectSupport<Complement>.select[{}]", which), case, sz.select(parent, i));
         }
+    }
+}
+
+fn large_load(ctx: &mut Ctx, kind: &str, n: usize) {
+    use simple_sds::ops::Push;
+    use simple_sds::raw_vector::PushRaw;
+    let c = Case::LargeLoad(kind.to_string(), n);
+    let case = || serde_json::to_value(&c).unwrap();
+    ctx.announce(case);
+    ctx.nontrivial(&c);
+    let val = |i: usize| (i as u64).wrapping_mul(0x9E37_79B9_7F4A_7C15) ^ 0x0123_4567_89AB_CDEF;
+    match kind {
+        "VecU64" => {
+            let bytes = to_bytes(&(0..n).map(val).collect::<Vec<u64>>());
+            if let Some(Ok(mut v)) = safe!(ctx, "Vec<u64>(large).load", case, from_bytes::<Vec<u64>>(&bytes)) {
+                let _ = safe!(ctx, "Vec<u64>(large, loaded).use", case, { v.push(1); (v[0], v[n - 1], v.len() <= v.capacity()) });
+            }
+        }
+        "VecPair" => {
+            let bytes = to_bytes(&(0..n).map(|i| (val(i), i as u64)).collect::<Vec<(u64, u64)>>());
+            if let Some(Ok(mut v)) = safe!(ctx, "Vec<(u64,u64)>(large).load", case, from_bytes::<Vec<(u64, u64)>>(&bytes)) {
+                let _ = safe!(ctx, "Vec<(u64,u64)>(large, loaded).use", case, { v.push((1, 1)); (v[0], v[n - 1]) });
+            }
+        }
+        "IntVector37" => {
+            let mut x = IntVector::with_capacity(n, 37).unwrap();
+            for i in 0..n {
+                x.push(val(i));
+            }
+            let bytes = to_bytes(&x);
+            if let Some(Ok(mut v)) = safe!(ctx, "IntVector(large).load", case, from_bytes::<IntVector>(&bytes)) {
+                let _ = safe!(ctx, "IntVector(large, loaded).use", case, { v.push(5); (v.get(0), v.get(n - 1), v.get(n)) });
+            }
+        }
+        "BitVector" => {
+            let mut raw = RawVector::with_capacity(n);
+            for i in 0..n / 64 {
+                unsafe { raw.push_int(val(i), 64) };
+            }
+            for i in 0..n % 64 {
+                raw.push_bit(i % 3 == 0);
+            }
+            let mut bv = BitVector::from(raw);
+            enable_all(&mut bv);
+            let bytes = to_bytes(&bv);
+            if let Some(Ok(v)) = safe!(ctx, "BitVector(large).load", case, from_bytes::<BitVector>(&bytes)) {
+                let _ = safe!(ctx, "BitVector(large, loaded).use", case, (v.get(0), v.get(n - 1), v.rank(n), v.select(v.count_ones() - 1), v.select_zero(v.count_zeros() - 1), v.one_iter().rev().take(3).count()));
+            }
+        }
+        _ => panic!("replay: not a C08x case"),
     }
 }
 
@@ -291,6 +343,13 @@ fn explore(ctx: &mut Ctx) {
             raw_access(ctx, &bits);
         }
     }
+    // Loads of structures around the piece sizes a loader might use (1 MiB, 2^20 items, 8 MiB).
+    for (k, (kind, n)) in [("VecU64", (1usize << 17) + 3), ("VecU64", (1 << 20) + 3), ("VecPair", (1 << 20) + 1), ("IntVector37", 1 << 21), ("BitVector", (1 << 26) + 70)].into_iter().enumerate() {
+        if ctx.mine_index(500 + k as u64) {
+            ctx.count("large_loads", 1);
+            large_load(ctx, kind, n);
+        }
+    }
     // Support structures with their own and with foreign parents: small ones exhaustively, plus
     // word / block / superblock sized ones.
     let fs = ctx.tier.pick(4, 6);
@@ -372,6 +431,7 @@ fn replay(ctx: &mut Ctx, v: &Value) {
         Case::IntAccess { width, values } => int_access(ctx, width, &values),
         Case::AnyViewAnywhere { descs } => any_view_anywhere(ctx, &descs),
         Case::ForeignSupport { own, other } => foreign_support(ctx, &own, &other),
+        Case::LargeLoad(kind, n) => large_load(ctx, &kind, n),
     }
 }
 
